@@ -102,7 +102,9 @@ class SchedLock:
     def __enter__(self):
         me = self.s.me()
         if self.owner == me:
-            self.depth += 1; return self
+            # re-entrant acquisition inside a critical section: a real thread can be pre-empted here too (the others then
+            # block on the lock - unless they read the shared state without taking it)
+            self.depth += 1; self.s.yield_point("reacquire"); return self
         self.s.yield_point("acquire")
         while self.owner is not None:
             self.s.park(me, "blocked-on-lock", blocked=True)
